@@ -14,6 +14,7 @@ mod pgcat_main;
 
 mod entropy;
 mod gen;
+mod memlimit;
 mod mockpg;
 mod oracles;
 mod parent;
@@ -25,6 +26,9 @@ mod sclient;
 mod spec;
 mod sqlmini;
 mod world;
+
+#[global_allocator]
+static GLOBAL: memlimit::Budgeted = memlimit::Budgeted;
 
 fn main() {
     if std::env::var("SIMH_CHILD").is_ok() {
